@@ -2,6 +2,7 @@ import SE.Model.Exporter
 import SE.Driver.Mapper
 import SE.Driver.Line
 import SE.Model.Hash
+import SE.Spec.Registry
 /-
 `pipe` command: a whole history of the ingestion pipeline on one line.
 `pipe <flags> <npre> (<hexname> <c|g|h|s> <hexhelp>)* | sub ; sub ; …`
@@ -61,7 +62,9 @@ def gatherClass (r : Reg Float) : String :=
   -- a suffix collision among the statsd families themselves is the repaired defect (edd038c; impossible in the model:
   -- SE.Props.C03.statsd_families_suffix_free); what remains is a collision with a pre-registered family
   else if suffixCollision (live.map fun m => (m.name, m.ty)) then "observer_companion_unchecked"
-  else "preregistered_name_collision"
+  -- what remains must involve a pre-registered family (SE.Props.C03.scrape_succeeds_if_live_names_avoid_preregistered)
+  else if live.any (fun m => !AvoidsPre r.pre m.name m.ty) then "preregistered_name_collision"
+  else "none"
 
 def counterValues (r : Reg Float) : List ((Bytes × Labels) × Float) :=
   r.metrics.flatMap fun m =>
